@@ -30,3 +30,7 @@ def run(ctx):
     from . import multipart as MP
     MP.stream_frame(ctx, "C02.R3.frame")
     MP.correspondence(ctx, "C02.R3.pieces")
+    # ... and the crate's own entity returns the file bytes of the range it is asked for (C18.R2 / R3: positional reads at
+    # start + bytes already delivered, bounded by what is left)
+    from . import C18
+    C18.r2_r3_step(ctx, C18.find_entity(ctx))
